@@ -215,7 +215,7 @@ def names_rules(ctx):
     # kept ids: fields[f] for the requested names in order
     ok = False
     for s in walk_no_nested(fi.node):
-        if isinstance(s, ast.For) and norm(s.iter) == "kept_fields":
+        if isinstance(s, ast.For) and norm(s.iter) in ("kept_fields", "kept_fields.split()"):
             t = [x for x in s.body if isinstance(x, ast.Try)]
             if t and [norm(b) for b in t[0].body] == [f"self.ids_keep.append(self.fields[{norm(s.target)}])"]:
                 ok = True
